@@ -453,6 +453,8 @@ def run(ctx) -> None:
     ctx.guard(octet_length_lint, "R03.13", "jws")  # "every key of the type and curve that algorithm requires": RSA moduli / curve sizes that are not multiples of 8
     from .c04 import r04_14
     ctx.guard_as("R03.12", r04_14, "jws")  # "exactly the original header members": no member is ever removed from a header object
+    from .c13 import r13_1 as _r13_1
+    ctx.guard_as("R03.16", _r13_1)  # a key without a kid gets its thumbprint as kid: the private key that signs and the public key that verifies must get the SAME one (RFC 7638 members only)
     ctx.guard(r03_7)
     ctx.guard(r03_6)
     ctx.guard(r03_1)
